@@ -424,4 +424,23 @@ theorem Good.of_int (c : CurveParams) (hp : Nat.Prime c.p)
   push_cast
   exact h
 
+
+/-! ### the order of the generator by evaluation -/
+
+/-- the same curve with `order=None`: `multiply` then runs the ladder on the scalar as given -/
+def orderless (c : CurveParams) : CurveParams := { c with n := 0 }
+
+instance (c : CurveParams) [Good c] : Good (orderless c) := ⟨Good.prime (c := c), Good.disc (c := c)⟩
+
+/-- if the model ladder, run on the scalar `n` itself, returns infinity, then `n • G = ∞` in the group -/
+theorem order_of_eval (c : CurveParams) [Good c] (hG : containsXY c c.gx c.gy = true)
+    (h : (multiply (orderless c) (basis c) c.n).toOption = some none) :
+    (c.n : Int) • toPoint c (basis c) = 0 := by
+  obtain ⟨R, h1, -, h3⟩ := multiply_refines (orderless c) (basis c) hG c.n (fun h => absurd rfl h)
+    (fun _ => Int.natCast_nonneg _)
+  rw [h1] at h
+  simp only [Except.toOption, Option.some.injEq] at h
+  subst h
+  exact h3.symm
+
 end Pycoin.Curve
